@@ -395,13 +395,45 @@ pub fn gen_bspec(r: &mut Rng, size: u32) -> BSpec {
             _ => r.usize_range(0, 1500),
         },
     };
-    BSpec {
+    let mut spec = BSpec {
         link,
         vlan,
         net,
         transport,
-        payload: r.bytes(plen),
-    }
+        payload: Vec::new(),
+    };
+    let plen = if size >= 4 {
+        // the largest payload this stacking can still encode (binary search
+        // with a counting sink), or 1..2 bytes less
+        struct Count(usize);
+        impl Write for Count {
+            fn write(&mut self, b: &[u8]) -> std::io::Result<usize> {
+                self.0 += b.len();
+                Ok(b.len())
+            }
+            fn flush(&mut self) -> std::io::Result<()> {
+                Ok(())
+            }
+        }
+        let zeros = vec![0u8; 65_536];
+        let fits = |spec: &BSpec, n: usize| spec.build().write(&mut Count(0), &zeros[..n]).is_ok();
+        let (mut lo, mut hi) = (0usize, 65_536usize);
+        if fits(&spec, 0) {
+            while lo + 1 < hi {
+                let mid = (lo + hi) / 2;
+                if fits(&spec, mid) {
+                    lo = mid;
+                } else {
+                    hi = mid;
+                }
+            }
+        }
+        lo.saturating_sub(r.usize_range(0, 2))
+    } else {
+        plen
+    };
+    spec.payload = r.bytes(plen);
+    spec
 }
 
 fn var_len_pub(r: &mut Rng, size: u32, max: usize) -> usize {
